@@ -59,7 +59,10 @@ LEVEL_TEXT = ("Lean 4 theorems over a Mathlib-free model of the solver wrappers 
               "blocked, no condition on range/dual dof counts); gmres/cg hand SciPy (W, projections onto the dual) in weak form "
               "and (M^-1 W, coefficients) in strong form and wrap its answer unchanged in the domain space(s), so any residual "
               "bound transfers; the iteration count / residual list equal the number / sequence of callback calls; precomputed "
-              "LU factors give the same answer.  The model is compared with the real wrappers through recording stubs on every "
+              "LU factors give the same answer; the offset loops of BlockedDiscreteOperator._matvec/_matmat and "
+              "GeneralizedDiscreteBlockedOperator._matmat compute the product with to_dense() for every block layout, and the "
+              "constructor's dimension bookkeeping only accepts well-formed block arrays (Model/Blocked.lean, exact comparison "
+              "with the real classes on dyadic data).  The model is compared with the real wrappers through recording stubs on every "
               "run; the property itself is exercised on real SciPy solves by the oracle.")
 LEVEL_NOTE = ("partial: exactness/convergence of SciPy's routines, info==0, rounding and conditioning are hypotheses of the "
               "theorems and covered by the numerical oracle only.  Trusted: Lean kernel, hand model Model/Solve.lean tied by "
